@@ -43,7 +43,7 @@ fn has_unspecified(t: &Value) -> bool {
 }
 /// the typed program binds a name (let, for, match) to a value whose type still contains an integer type
 /// that was never resolved (an un-suffixed literal): identifies the known finding `unspecified-binding`
-fn unspecified_bindings(v: &Value) -> bool {
+pub fn unspecified_bindings(v: &Value) -> bool {
     match v {
         Value::Object(m) => {
             let hit = match m.get("k").and_then(|k| k.as_str()).unwrap_or("") {
@@ -68,6 +68,34 @@ fn shape_of(v: &Value) -> Value {
         Value::Object(m) => { let mut o = serde_json::Map::new(); for (k, x) in m { if matches!(k.as_str(), "m" | "ty" | "cty" | "pty" | "nosfx") { continue; } o.insert(k.clone(), shape_of(x)); } Value::Object(o) }
         Value::Array(a) => Value::Array(a.iter().map(shape_of).collect()),
         x => x.clone(),
+    }
+}
+
+/// AST without spans, with the types of all nodes except literals (number expressions, number patterns, ranges)
+fn typed_shape_of(v: &Value) -> Value {
+    match v {
+        Value::Object(m) => {
+            let k = m.get("k").and_then(|x| x.as_str()).unwrap_or("");
+            let lit = matches!(k, "num" | "pnum" | "prange" | "range");
+            let mut o = serde_json::Map::new();
+            for (key, x) in m { if matches!(key.as_str(), "m" | "cty" | "pty" | "nosfx") || (lit && (key == "ty" || key == "t")) { continue; } o.insert(key.clone(), typed_shape_of(x)); }
+            Value::Object(o)
+        }
+        Value::Array(a) => Value::Array(a.iter().map(typed_shape_of).collect()),
+        x => x.clone(),
+    }
+}
+/// the type names of all literals in traversal order
+fn literal_types(v: &Value, out: &mut Vec<String>) {
+    match v {
+        Value::Object(m) => {
+            let k = m.get("k").and_then(|x| x.as_str()).unwrap_or("");
+            if matches!(k, "num" | "pnum" | "prange") { out.push(m.get("ty").map(|t| t["t"].as_str().unwrap_or("?").to_string()).unwrap_or_default()); }
+            if k == "range" { out.push(m.get("t").and_then(|t| t.as_str()).unwrap_or("?").to_string()); }
+            for (key, x) in m { if key != "ty" && key != "m" { literal_types(x, out); } }
+        }
+        Value::Array(a) => for x in a { literal_types(x, out); },
+        _ => {}
     }
 }
 
@@ -147,6 +175,8 @@ pub fn shape_events<W: Write>(w: &mut W, id: &str, family: &str, src: &str, type
                             match guarded(move || rc2.eval(&inp)) { Ok(o2) if o2 == out => {}, Ok(_) => { eval_ok = false; msgs.push("register eval differs".into()); }, Err(m) => { eval_ok = false; msgs.push(format!("register eval panic: {m}")); } }
                         }
                         if out.len() < 161 { decode_ok = false; msgs.push("fewer than 161 output bits".into()); continue; }
+                        // the value bits mean something only when the circuit reports no panic
+                        if out[0] { continue; }
                         let (tyc, cs) = (fn_def.ty.clone(), const_sizes.clone());
                         let bits = out[161..].to_vec();
                         match guarded(|| Literal::from_unwrapped_bits(typed, &tyc, &bits, &cs)) {
@@ -161,8 +191,15 @@ pub fn shape_events<W: Write>(w: &mut W, id: &str, family: &str, src: &str, type
             // a suffix-erased variant whose typed AST has the shape of the annotated program (same nodes, same literal values)
             // denotes the same function: compare the circuits on the inputs used above plus a few more
             if let (Some(b), "main", false) = (base, fn_name.as_str(), unspec) {
-                let whole_shape = { let cs = HashMap::new(); let mut pr2 = Proj::new(typed, &cs); shape_of(&pr2.program("main")) };
-                if whole_shape == shape_of(b.ast) && b.circuit.input_gates == circuit.input_gates && b.circuit.output_gates.len() == circuit.output_gates.len() {
+                // demanded only if the checker typed every node other than the erased literals exactly as in the annotated
+                // program and every literal either as there or not at all (otherwise the literal legitimately got another
+                // type, e.g. the i32 default in the operand of a cast or in an un-annotated let mut)
+                let whole = { let cs = HashMap::new(); let mut pr2 = Proj::new(typed, &cs); pr2.program("main") };
+                let (mut l1, mut l2) = (vec![], vec![]);
+                literal_types(&whole, &mut l1);
+                literal_types(b.ast, &mut l2);
+                let lits_ok = l1.len() == l2.len() && l1.iter().zip(l2.iter()).all(|(e, a)| e == a || e == "unspec");
+                if typed_shape_of(&whole) == typed_shape_of(b.ast) && lits_ok && b.circuit.input_gates == circuit.input_gates && b.circuit.output_gates.len() == circuit.output_gates.len() {
                     for round in 0..4 {
                         let mut flat: Vec<bool> = vec![];
                         let mut ok = true;
@@ -342,17 +379,8 @@ pub fn cmd_record(args: &[String]) {
             let mut m = base.clone();
             for i in sub { let mut x = get_path(&m, &sites[*i]).clone(); x["nosfx"] = json!(true); set_path(&mut m, &sites[*i], x); }
             let msrc = printer::program(&m);
-            // the agreement with the annotated program is only demanded where the context fixes the type of the erased
-            // literal: one erased site, not inside the operand of a cast, a match scrutinee or the iterated expression of a for
-            let context_typed = sub.len() == 1 && {
-                let path = &sites[sub[0]];
-                !(1..path.len()).any(|d| {
-                    let parent = get_path(&base, &path[..d - 1]);
-                    matches!((&path[d - 1], parent["k"].as_str().unwrap_or("")), (P::K(k), "cast" | "match" | "for") if k == "e")
-                })
-            };
             match &base_circuit {
-                Some(c) if context_typed => { let a = Annotated { ast: &base, circuit: c }; run_source_with(&mut w, &format!("{id}-e{j}"), "erased", &msrc, &mut rng, Some(&a)); }
+                Some(c) => { let a = Annotated { ast: &base, circuit: c }; run_source_with(&mut w, &format!("{id}-e{j}"), "erased", &msrc, &mut rng, Some(&a)); }
                 _ => { run_source(&mut w, &format!("{id}-e{j}"), "erased", &msrc, &mut rng); }
             }
         }
